@@ -83,6 +83,16 @@ func (tr *tracker) writesNow() (int64, int) {
 	if d := tr.w.St.Media.Data; d != nil {
 		dev = int64(d.Writes)
 	}
+	for _, h := range tr.w.Holds {
+		if h.Block != nil {
+			// A held-open Get whose on-the-fly refresh copy is written by a
+			// background goroutine of the store: its device writes land at
+			// arbitrary later moments and cannot be attributed to the call
+			// under observation. In-block allocations (synchronous, inside
+			// the call) remain the write indicator.
+			dev = 0
+		}
+	}
 	puts := 0
 	for _, b := range tr.w.St.Alloc.Blocks {
 		puts += int(b.Puts)
